@@ -64,7 +64,7 @@ Judge(e) ==
          fo  == B!FastOut(s)
          pos == [t \in ToSet(g.inorder) |-> CHOOSE k \in DOMAIN g.inorder : g.inorder[k] = t]
      IN IF op.edges # o.edges \/ op.dist # o.dist THEN "operational-differs-from-declarative"
-        ELSE IF fo.edges # o.edges \/ fo.dist # o.dist \/ fo.mols # o.mols \/ B!AnyNearC(s) THEN "fast-differs-from-declarative"
+        ELSE IF fo.edges # o.edges \/ fo.dist # o.dist \/ fo.mols # o.mols \/ B!AnyNearC(s, B!CandPairs(s)) THEN "fast-differs-from-declarative"
         ELSE IF g.err THEN "exception"
         ELSE IF SumLen(g.mols) # Len(s.atoms) \/ UNION GM # B!Idx(s) THEN "atoms-not-partitioned"
         ELSE IF Len(g.inorder) # Len(s.atoms) \/ ToSet(g.inorder) # B!Idx(s) THEN "malformed-input"
@@ -104,16 +104,13 @@ Info(e) ==
            nmol    |-> Cardinality(o.mols)]
 
 (* ------------------------------------------------------------------ real structures *)
-JudgeBig(e) ==
+\* c = Bonds!Ctx(s), cand = Bonds!CandPairs(s), o = Bonds!FastOutC(s, c, cand): computed once per event
+JudgeBig(e, c, o) ==
   LET s == e.sys
       g == e.got
-  IN IF ~B!WellFormedBig(s) \/ Len(s.oldd) # Len(s.old) THEN "malformed-input"
-     ELSE IF B!AnyNearC(s) THEN "unspecified-near-threshold"
-     ELSE IF g.err THEN "exception"
+  IN IF g.err THEN "exception"
      ELSE
-     LET c   == B!Ctx(s)
-         o   == B!FastOutC(s, c)
-         n   == Len(s.atoms)
+     LET n   == Len(s.atoms)
          Old == B!OldE(s, B!SPEC)
          B0  == TLCEval(Old \cup o.named)
          GE  == TLCEval({B!Norm(g.edges[k].a, g.edges[k].b) : k \in DOMAIN g.edges})
@@ -151,34 +148,43 @@ JudgeBig(e) ==
         ELSE IF s.name /\ (g.wunk # nfbU \/ g.wdup # nfbD) THEN "fall-back-warnings-wrong"
         ELSE "ok"
 
-InfoBig(e) ==
-  LET s == e.sys IN
-  IF ~B!WellFormedBig(s) \/ B!AnyNearC(s) THEN [natoms |-> 0]
-  ELSE LET c  == B!Ctx(s)
-           o  == B!FastOutC(s, c)
-           B0 == TLCEval(B!OldE(s, B!SPEC) \cup o.named)
-           Fl == TLCEval([p \in B!CandPairs(s) |-> B!FailingC(s, c, p, B0)])
-       IN [natoms |-> Len(s.atoms), nres |-> Cardinality(c.res),
-           nnamed |-> Cardinality({Q \in c.res : c.nb[B!MinOf(Q)]}),
-           nfallback |-> Cardinality({Q \in c.res : c.fb[B!MinOf(Q)]}),
-           nold |-> Cardinality(B!OldE(s, B!SPEC)), nname |-> Cardinality(o.named), nguess |-> Cardinality(o.guessed),
-           nmol |-> Cardinality(o.mols), ninmol |-> Cardinality({s.atoms[i].mol : i \in DOMAIN s.atoms}),
-           ncand |-> Cardinality(DOMAIN Fl),
-           \* close pairs whose only failing conjunct is c: each of them is a bond the real code must NOT have made
-           sole |-> [x \in B!ConjNames |-> IF s.dist THEN Cardinality({p \in DOMAIN Fl : Fl[p] = {x}}) ELSE 0],
-           \* residues of different input molecules with coinciding chain / number / name / insertion code
-           twins |-> Cardinality({Q \in c.res : \E P \in c.res : P # Q /\
-                                   B!ResKey("no-mol", s.atoms[B!MinOf(P)]) = B!ResKey("no-mol", s.atoms[B!MinOf(Q)])})]
+InfoBig(e, c, o, cand) ==
+  LET s  == e.sys
+      B0 == TLCEval(B!OldE(s, B!SPEC) \cup o.named)
+      \* close pairs that are within the threshold (or have an element without radius): which conjuncts stop them
+      Fl == TLCEval([p \in {q \in cand : B!CWithin(s, B!SPEC, q)} |-> B!FailingC(s, c, p, B0)])
+      firsts == TLCEval({B!MinOf(Q) : Q \in c.res})
+      keys   == TLCEval([i \in firsts |-> B!ResKey("no-mol", s.atoms[i])])
+  IN [natoms |-> Len(s.atoms), nres |-> Cardinality(c.res),
+      nnamed |-> Cardinality({i \in firsts : c.nb[i]}),
+      nfallback |-> Cardinality({i \in firsts : c.fb[i]}),
+      nold |-> Cardinality(B!OldE(s, B!SPEC)), nname |-> Cardinality(o.named), nguess |-> Cardinality(o.guessed),
+      nmol |-> Cardinality(o.mols), ninmol |-> Cardinality({s.atoms[i].mol : i \in DOMAIN s.atoms}),
+      ncand |-> Cardinality(cand),
+      \* close pairs whose only failing conjunct is x: each of them is a bond the real code must NOT have made
+      \* ("within" is not counted: every far pair)
+      sole |-> [x \in B!ConjNames |-> IF s.dist THEN Cardinality({p \in DOMAIN Fl : Fl[p] = {x}}) ELSE 0],
+      \* residues of different input molecules with coinciding chain / number / name / insertion code
+      twins |-> Cardinality({i \in firsts : \E j \in firsts : j # i /\ keys[i] = keys[j]})]
 
-JudgeReal(e) ==
-  LET rv == IF e.hasfile THEN R!JudgeRead(e.file, e.read) ELSE "ok"
-  IN IF rv # "ok" THEN rv ELSE JudgeBig(e)
+RealBoth(e) ==
+  LET s    == e.sys
+      rv   == IF e.hasfile THEN R!JudgeRead(e.file, e.read) ELSE "ok"
+      wf   == B!WellFormedBig(s) /\ Len(s.oldd) = Len(s.old)
+      cand == B!CandPairs(s)
+      near == B!AnyNearC(s, cand)
+      c    == B!Ctx(s)
+      o    == B!FastOutC(s, c, cand)
+  IN [v |-> IF ~wf THEN "malformed-input" ELSE IF near THEN "unspecified-near-threshold"
+            ELSE IF rv # "ok" THEN rv ELSE JudgeBig(e, c, o),
+      i |-> IF ~wf \/ near THEN [natoms |-> 0] ELSE InfoBig(e, c, o, cand)]
 
 IsReal(e) == "kind" \in DOMAIN e /\ e.kind = "real"
 Init == tid \in 1..Len(Batch) /\ verdict = "pending" /\ info = <<>>
 Eval == /\ verdict = "pending"
-        /\ verdict' = IF IsReal(Batch[tid]) THEN JudgeReal(Batch[tid]) ELSE Judge(Batch[tid])
-        /\ info' = IF IsReal(Batch[tid]) THEN InfoBig(Batch[tid]) ELSE Info(Batch[tid])
+        /\ IF IsReal(Batch[tid])
+           THEN LET r == RealBoth(Batch[tid]) IN verdict' = r.v /\ info' = r.i
+           ELSE verdict' = Judge(Batch[tid]) /\ info' = Info(Batch[tid])
         /\ UNCHANGED tid
 Spec == Init /\ [][Eval]_vars
 =============================================================================
